@@ -61,6 +61,14 @@ impl ZXAyChip {
     }
 }
 
+#[cfg(rustzx_verif)]
+impl ZXAyChip {
+    /// One internal tick of the sound generator behind this chip, with its generator state
+    pub(crate) fn verif_raw_tick(&mut self) -> aym::VerifRawTick {
+        self.ay.verif_raw_tick()
+    }
+}
+
 impl SampleGenerator<f64> for ZXAyChip {
     fn gen_sample(&mut self) -> SoundSample<f64> {
         let sample = self.ay.next_sample();
